@@ -267,7 +267,9 @@ type SimTLSConn struct {
 	inWrite int
 }
 
-func (c *SimTLSConn) lock()   { c.mu <- struct{}{}; c.e.S.Park("tlsmu") }
+// (a scheduling point before the attempt: who asks first is the scheduler's decision, not the
+// outcome of two goroutines racing for the channel)
+func (c *SimTLSConn) lock()   { c.e.S.Park("tlsmu?"); c.mu <- struct{}{}; c.e.S.Park("tlsmu") }
 func (c *SimTLSConn) unlock() { <-c.mu }
 
 func (c *SimTLSConn) Write(b []byte) (int, error) {
